@@ -10,7 +10,9 @@ Reading guide
   (fees: cached feeSum = Σ fees of the payer's pooled txs ≤ cached balance).
 * `U` is the universe of transactions offered to the pool; `WF U` says ids behave like hashes
   (id determines the transaction, no transaction repeats a Conflicts hash, no two name each other).
-* Every operation brings its own `Feer`; balances may differ from call to call.
+* Every operation brings its own `Feer`; balances may differ from call to call. `FeerOk feer`: the balances it
+  reports are below 2^255 (then the pool's uint256 additions are exact; all of the uint256 wrap-around of the
+  code is in the model).
 -/
 import NeoModel.Proofs.MempoolRun
 namespace NeoModel.Mempool.C08
@@ -22,8 +24,8 @@ open NeoModel.Mempool
 theorem inv_new (U : Tx → Prop) (c : Nat) : Inv U (new c) := Mempool.inv_new U c
 
 /-- `Add` (successful or not) preserves the invariant. -/
-theorem inv_add {U : Tx → Prop} (hw : WF U) {mp : Pool} (hi : Inv U mp) {t : Tx} (ht : U t) (feer : Feer) :
-    Inv U (add mp t feer).1 := Mempool.inv_add hw hi ht feer
+theorem inv_add {U : Tx → Prop} (hw : WF U) {mp : Pool} (hi : Inv U mp) {t : Tx} (ht : U t) (feer : Feer)
+    (hF : FeerOk feer) : Inv U (add mp t feer).1 := Mempool.inv_add hw hi ht feer hF
 
 /-- `Remove` preserves the invariant and removes exactly the named transaction. -/
 theorem inv_remove {U : Tx → Prop} (hw : WF U) {mp : Pool} (hi : Inv U mp) (h : Nat) :
@@ -31,14 +33,16 @@ theorem inv_remove {U : Tx → Prop} (hw : WF U) {mp : Pool} (hi : Inv U mp) (h 
   ⟨(inv_removeInternal hw hi h).1, (inv_removeInternal hw hi h).2.1⟩
 
 /-- `RemoveStale` (any filter, any new balances, any new policy value) preserves the invariant and only drops. -/
-theorem inv_removeStale {U : Tx → Prop} (hw : WF U) {mp : Pool} (hi : Inv U mp) (isOK : Tx → Bool) (feer : Feer) :
+theorem inv_removeStale {U : Tx → Prop} (hw : WF U) {mp : Pool} (hi : Inv U mp) (isOK : Tx → Bool) (feer : Feer)
+    (hF : FeerOk feer) :
     Inv U (removeStale mp isOK feer) ∧ (removeStale mp isOK feer).txs.Sublist mp.txs :=
-  ⟨(Mempool.inv_removeStale hw hi isOK feer).1, (Mempool.inv_removeStale hw hi isOK feer).2.1⟩
+  ⟨(Mempool.inv_removeStale hw hi isOK feer hF).1, (Mempool.inv_removeStale hw hi isOK feer hF).2.1⟩
 
 /-- `Verify` preserves the invariant (it may only fill the balance cache). -/
-theorem inv_verify {U : Tx → Prop} (hw : WF U) {mp : Pool} (hi : Inv U mp) {t : Tx} (ht : U t) (feer : Feer) :
+theorem inv_verify {U : Tx → Prop} (hw : WF U) {mp : Pool} (hi : Inv U mp) {t : Tx} (ht : U t) (feer : Feer)
+    (hF : FeerOk feer) :
     Inv U (verify mp t feer).1 ∧ CacheOnly mp (verify mp t feer).1 t feer :=
-  ⟨(verify_spec hw hi ht feer).2, (verify_spec hw hi ht feer).1⟩
+  ⟨(verify_spec hw hi ht feer hF).2, (verify_spec hw hi ht feer hF).1⟩
 
 /-- C08, main theorem: after ANY sequence of Add / Remove / RemoveStale / Verify, with arbitrary transactions of
 the universe, arbitrary capacity and an arbitrary `Feer` at every call, the invariant holds. -/
@@ -151,15 +155,15 @@ index, the oracle index, capacity and policy are unchanged, nothing panicked, an
 that the new transaction's payer may have received the cache entry (balance from the `Feer`, fee sum 0) —
 exactly what a later lookup would compute anyway (`add_fail_feeview`). -/
 theorem add_fail_unchanged {U : Tx → Prop} (hw : WF U) {mp : Pool} (hi : Inv U mp) {t : Tx} (ht : U t) (feer : Feer)
-    {mp' : Pool} {e : Err} (h : add mp t feer = (mp', some e)) : CacheOnly mp mp' t feer :=
-  ((add_spec hw hi ht feer).1 mp' e h).1
+    (hF : FeerOk feer) {mp' : Pool} {e : Err} (h : add mp t feer = (mp', some e)) : CacheOnly mp mp' t feer :=
+  ((add_spec hw hi ht feer hF).1 mp' e h).1
 
 /-- ... and the balance/fee-sum the pool uses for any payer (`getPayerFee` with the same `Feer`) is the same
 before and after the failed `Add`. -/
 theorem add_fail_feeview {U : Tx → Prop} (hw : WF U) {mp : Pool} (hi : Inv U mp) {t : Tx} (ht : U t) (feer : Feer)
-    {mp' : Pool} {e : Err} (h : add mp t feer = (mp', some e)) (q : Payer) :
+    (hF : FeerOk feer) {mp' : Pool} {e : Err} (h : add mp t feer = (mp', some e)) (q : Payer) :
     (getPayerFee q mp'.fees feer).1 = (getPayerFee q mp.fees feer).1 := by
-  obtain ⟨_, _, _, _, _, _, _, hf⟩ := add_fail_unchanged hw hi ht feer h
+  obtain ⟨_, _, _, _, _, _, _, hf⟩ := add_fail_unchanged hw hi ht feer hF h
   rcases hf with hf | ⟨hnone, hf⟩
   · rw [hf]
   · rw [hf]
@@ -177,13 +181,13 @@ that disappeared either names / is named by the new transaction in a Conflicts a
 to the same oracle request with a smaller network fee, or was evicted for capacity — and then the resulting
 pool is full, `x` is not above any remaining entry, and the new transaction is strictly above `x`. -/
 theorem evicts_lowest {U : Tx → Prop} (hw : WF U) {mp : Pool} (hi : Inv U mp) {t : Tx} (ht : U t) (feer : Feer)
-    {mp' : Pool} (h : add mp t feer = (mp', none)) :
+    (hF : FeerOk feer) {mp' : Pool} (h : add mp t feer = (mp', none)) :
     t ∈ mp'.txs ∧ (∀ x ∈ mp'.txs, x = t ∨ x ∈ mp.txs) ∧
     (∀ x ∈ mp.txs, x ∉ mp'.txs →
       t.id ∈ x.conflicts ∨ x.id ∈ t.conflicts ∨
       (x.oracle = t.oracle ∧ t.oracle ≠ none ∧ x.netFee < t.netFee) ∨
       (mp'.txs.length = mp'.capacity ∧ (∀ y ∈ mp'.txs, ge y x) ∧ 0 < compare t x)) := by
-  obtain ⟨_, _, _, h4, h5, h6⟩ := (add_spec hw hi ht feer).2 mp' h
+  obtain ⟨_, _, _, h4, h5, h6⟩ := (add_spec hw hi ht feer hF).2 mp' h
   exact ⟨h4, h5, h6⟩
 
 /-- C08 (ordering, insertion step): inserting at the index computed by `Add` (the "equal to the last → append"
@@ -234,13 +238,24 @@ def F' : Feer := { F with balance := fun p s => if p = 1 ∧ s = 5 then 14 else 
 
 theorem wf_univ : WF (· ∈ univ) := wf_of_list univ (by decide) (by decide) (by decide)
 
+theorem feerOk_F : FeerOk F := by
+  intro p s; unfold F H256 U256; simp only
+  repeat' split
+  all_goals decide
+
+theorem feerOk_F' : FeerOk F' := by
+  intro p s; unfold F' F H256 U256; simp only
+  repeat' split
+  all_goals decide
+
 def demoOps : List Op :=
   [.add a0 F, .add b0 F, .add a1 F, .add c0 F, .verify c1 F, .add c1 F, .remove 1, .removeStale (fun _ => true) F', .add b0 F']
 
 theorem demo_in : OpsIn (· ∈ univ) demoOps := by
   intro op hop
   simp only [demoOps, List.mem_cons, List.not_mem_nil, or_false] at hop
-  rcases hop with rfl | rfl | rfl | rfl | rfl | rfl | rfl | rfl | rfl <;> simp [univ]
+  rcases hop with rfl | rfl | rfl | rfl | rfl | rfl | rfl | rfl | rfl <;>
+    simp [OpOk, univ, feerOk_F, feerOk_F']
 
 -- inv_reachable / reachable_unpacked apply to a run that exercises Notary payers, a Conflicts replacement,
 -- an oracle replacement, eviction at capacity 3, a removal and a refresh with changed balances and policy
@@ -252,8 +267,9 @@ example : (add (run 3 [.add a0 F, .add b0 F]) a1 F).2 = some .conflict := by dec
 -- add_fail_unchanged applies to it (hypotheses met by a reachable state)
 example : CacheOnly (run 3 [.add a0 F, .add b0 F]) (add (run 3 [.add a0 F, .add b0 F]) a1 F).1 a1 F :=
   add_fail_unchanged wf_univ
-    (inv_reachable wf_univ 3 [.add a0 F, .add b0 F] (by intro op hop; simp at hop; rcases hop with rfl | rfl <;> simp [univ]))
-    (by simp [univ]) F (e := .conflict) (Prod.ext rfl (by decide))
+    (inv_reachable wf_univ 3 [.add a0 F, .add b0 F]
+      (by intro op hop; simp at hop; rcases hop with rfl | rfl <;> simp [OpOk, univ, feerOk_F]))
+    (by simp [univ]) F feerOk_F (e := .conflict) (Prod.ext rfl (by decide))
 -- evicts_lowest: capacity 2, pool [a0, b0] is full, c0 (fee per byte 4) evicts the last one (b0)
 example : ((add (run 2 [.add a0 F, .add b0 F]) c0 F).1.txs.map (·.id), (add (run 2 [.add a0 F, .add b0 F]) c0 F).2) = ([3, 0], none) := by
   decide
